@@ -109,4 +109,6 @@ def run(ck, ix, tier):
         g = d.groups.get(grp)
         ok = g is not None and all(m in g["units"] for m in members)
         ck.check(ok, "G-DATA", f"group:{grp}|members", FILES, f"group {grp} holds {members}", f"group {grp} is missing or lacks some of {members}")
+    from .. import memo as _memo
+    _memo.rule_lazy_prefixed_units(ck, ix)  # a bundled symbol must not be shadowed by a lazily added prefixed unit
     return EXPLANATION
